@@ -453,4 +453,727 @@ theorem parent_sizes (frames : List Frame) (h : Hole) (mid mid' : List Atom)
   have := parent_sizes_within frames h mid mid' [] [] hw hw'
   simpa using this
 
+/-! ### D. the steps of `__update_parents` / `__update_offsets` touch only their own fields -/
+
+/-- `g'` has the length of `g` and the same bytes outside `[lo, hi)` -/
+def Agree (g g' : Bytes) (lo hi : Nat) : Prop :=
+  g'.length = g.length ∧ ∀ i, (i < lo ∨ hi ≤ i) → g'[i]? = g[i]?
+
+theorem Agree.refl (g : Bytes) (lo hi : Nat) : Agree g g lo hi := ⟨rfl, fun _ _ => rfl⟩
+
+theorem Agree.mono {g g' : Bytes} {lo hi lo' hi' : Nat} (h : Agree g g' lo hi) (h1 : lo' ≤ lo) (h2 : hi ≤ hi') :
+    Agree g g' lo' hi' :=
+  ⟨h.1, fun i hi => h.2 i (by omega)⟩
+
+theorem Agree.readAt {g g' : Bytes} {lo hi : Nat} (h : Agree g g' lo hi) (x n : Nat) (hd : x + n ≤ lo ∨ hi ≤ x) :
+    readAt g' x n = readAt g x n := by
+  apply readAt_eq_of_getElem?
+  intro i hi
+  exact h.2 (x + i) (by omega)
+
+theorem writeAt_agree (g buf : Bytes) (pos : Nat) (h : pos + buf.length ≤ g.length) :
+    Agree g (writeAt g pos buf) pos (pos + buf.length) := by
+  refine ⟨length_writeAt g pos buf h, fun i hi => ?_⟩
+  rw [getElem?_writeAt g pos buf i h]
+  rcases hi with hi | hi
+  · simp [hi]
+  · have h1 : ¬ i < pos := by omega
+    have h2 : ¬ i < pos + buf.length := by omega
+    simp [h1, h2]
+
+theorem length_readAt' (g : Bytes) (pos n : Nat) : (readAt g pos n).length = min n (g.length - pos) := by
+  simp [readAt]
+
+theorem packBE_length (w : Nat) (v : Int) (e : PyErr) (b : Bytes) (h : packBE w v e = .ok b) : b.length = w := by
+  unfold packBE at h
+  split at h
+  · cases h
+  · cases h; simp
+
+theorem packBE_inv (w : Nat) (v : Int) (e : PyErr) (b : Bytes) (h : packBE w v e = .ok b) :
+    0 ≤ v ∧ v < ((256 ^ w : Nat) : Int) ∧ b = toBE w v.toNat := by
+  unfold packBE at h
+  by_cases hc : v < 0 ∨ v ≥ ((256 ^ w : Nat) : Int)
+  · rw [if_pos hc] at h; cases h
+  · rw [if_neg hc] at h; cases h; exact ⟨by omega, by omega, rfl⟩
+
+theorem patchSize_agree (g g' : Bytes) (off : Nat) (delta : Int) (h : patchSize g off delta = .ok g') :
+    Agree g g' off (off + 16) := by
+  unfold patchSize at h
+  simp only at h
+  split at h
+  · cases h
+  · rename_i h4
+    rw [length_readAt'] at h4
+    split at h
+    · split at h
+      · cases h
+      · rename_i h8
+        simp only [List.length_drop, length_readAt'] at h8
+        split at h
+        · cases h
+        · rename_i b hb
+          cases h
+          have hl := packBE_length _ _ _ _ hb
+          exact (writeAt_agree g b (off + 8) (by omega)).mono (by omega) (by omega)
+    · split at h
+      · cases h
+      · rename_i b hb
+        cases h
+        have hl := packBE_length _ _ _ _ hb
+        exact (writeAt_agree g b off (by omega)).mono (by omega) (by omega)
+
+theorem length_entriesOf (w cnt : Nat) (d : Bytes) : (entriesOf w cnt d).length = cnt := by
+  induction cnt generalizing d with
+  | zero => rfl
+  | succ c ih => simp [entriesOf, ih]
+
+theorem length_encodeEntries (w : Nat) (es : List Nat) : (encodeEntries w es).length = w * es.length := by
+  induction es with
+  | nil => simp [encodeEntries]
+  | cons e r ih =>
+    simp only [encodeEntries, List.map_cons, List.flatten_cons, List.length_append, length_toBE, List.length_cons] at ih ⊢
+    rw [ih]; rw [Nat.mul_succ]; omega
+
+/-- the bytes `__update_offset_table` reads: count(4) and entries -/
+def tblData (g : Bytes) (off len : Nat) : Bytes := readAt g (off + 12) (len - 12)
+def tblCnt (g : Bytes) (off len : Nat) : Nat := ofBE ((tblData g off len).take 4)
+/-- the entries of the table at `off` -/
+def tblEntries (g : Bytes) (w off len : Nat) : List Nat := entriesOf w (tblCnt g off len) ((tblData g off len).drop 4)
+
+/-- what a successful `__update_offset_table` did: the count was readable, fits the atom, every
+patched entry fits its field, and the entries were overwritten by the patched ones -/
+theorem updateOffsetTable_ok (g g' : Bytes) (w off len : Nat) (delta : Int) (o : Nat) (hlen : 12 ≤ len)
+    (h : updateOffsetTable g w off len delta o = .ok g') :
+    4 ≤ (tblData g off len).length ∧ ((tblData g off len).drop 4).length = tblCnt g off len * w ∧
+      (∀ v ∈ (tblEntries g w off len).map (patchEntry o delta), 0 ≤ v ∧ v < (256 ^ w : Nat)) ∧
+      g' = writeAt g (off + 16) (encodeEntries w (((tblEntries g w off len).map (patchEntry o delta)).map Int.toNat)) := by
+  unfold updateOffsetTable at h
+  have hp : pyRead g (off + 12) ((len : Int) - 12) = readAt g (off + 12) (len - 12) := by
+    unfold pyRead
+    have : ¬ ((len : Int) - 12 < 0) := by omega
+    simp only [this, ↓reduceIte]
+    congr 1; omega
+  simp only [hp] at h
+  unfold tblEntries tblCnt tblData
+  split at h
+  · cases h
+  · rename_i h4
+    split at h
+    · cases h
+    · rename_i hb
+      split at h
+      · cases h
+      · rename_i hany
+        cases h
+        refine ⟨?_, by simpa using hb, ?_, rfl⟩
+        · simp only [List.length_take] at h4; omega
+        · intro v hv
+          have hv' : ¬ (v < 0 ∨ v ≥ ((256 ^ w : Nat) : Int)) :=
+            fun hh => hany (List.any_eq_true.mpr ⟨v, hv, by simpa using hh⟩)
+          omega
+
+theorem updateOffsetTable_agree (g g' : Bytes) (w off len : Nat) (delta : Int) (o : Nat) (hlen : 12 ≤ len)
+    (h : updateOffsetTable g w off len delta o = .ok g') : Agree g g' (off + 16) (off + len) := by
+  obtain ⟨h4, hb, _, hg⟩ := updateOffsetTable_ok g g' w off len delta o hlen h
+  rw [hg]
+  have hdl : (tblData g off len).length = min (len - 12) (g.length - (off + 12)) := length_readAt' _ _ _
+  simp only [List.length_drop] at hb
+  have hl : (encodeEntries w (((tblEntries g w off len).map (patchEntry o delta)).map Int.toNat)).length =
+      (tblData g off len).length - 4 := by
+    rw [length_encodeEntries, List.length_map, List.length_map, tblEntries, length_entriesOf, hb, Nat.mul_comm]
+  refine (writeAt_agree g _ (off + 16) (by rw [hl]; omega)).mono (by omega) (by rw [hl]; omega)
+
+/-- the bytes `__update_tfhd` reads: flags(3) track_ID(4) base_data_offset(8) … -/
+def tfhdData (g : Bytes) (off len : Nat) : Bytes := readAt g (off + 9) (len - 9)
+def tfhdHasBase (g : Bytes) (off len : Nat) : Prop := ofBE ((tfhdData g off len).take 3) % 2 = 1
+def tfhdBaseAt (g : Bytes) (off len : Nat) : Nat := ofBE (((tfhdData g off len).drop 7).take 8)
+
+/-- what a successful `__update_tfhd` did -/
+theorem updateTfhd_ok (g g' : Bytes) (off len : Nat) (delta : Int) (o : Nat) (hlen : 9 ≤ len)
+    (h : updateTfhd g off len delta o = .ok g') :
+    3 ≤ (tfhdData g off len).length ∧
+    (tfhdHasBase g off len →
+      8 ≤ (((tfhdData g off len).drop 7).take 8).length ∧
+      0 ≤ patchEntry o delta (tfhdBaseAt g off len) ∧
+      patchEntry o delta (tfhdBaseAt g off len) < (256 ^ 8 : Nat) ∧
+      g' = writeAt g (off + 16) (toBE 8 (patchEntry o delta (tfhdBaseAt g off len)).toNat)) ∧
+    (¬ tfhdHasBase g off len → g' = g) := by
+  unfold updateTfhd at h
+  have hp : pyRead g (off + 9) ((len : Int) - 9) = readAt g (off + 9) (len - 9) := by
+    unfold pyRead
+    have : ¬ ((len : Int) - 9 < 0) := by omega
+    simp only [this, ↓reduceIte]
+    congr 1; omega
+  simp only [hp] at h
+  unfold tfhdHasBase tfhdBaseAt tfhdData
+  split at h
+  · cases h
+  · rename_i h3
+    refine ⟨by simp only [List.length_take] at h3; omega, ?_⟩
+    split at h
+    · rename_i hodd
+      refine ⟨fun _ => ?_, fun hn => absurd hodd hn⟩
+      split at h
+      · cases h
+      · rename_i h8
+        split at h
+        · cases h
+        · rename_i b hb
+          cases h
+          obtain ⟨p1, p2, p3⟩ := packBE_inv _ _ _ _ hb
+          exact ⟨by omega, p1, p2, by rw [p3]⟩
+    · rename_i hodd
+      refine ⟨fun hy => absurd hy hodd, fun _ => ?_⟩
+      cases h; rfl
+
+theorem updateTfhd_agree (g g' : Bytes) (off len : Nat) (delta : Int) (o : Nat) (hlen : 24 ≤ len)
+    (h : updateTfhd g off len delta o = .ok g') : Agree g g' (off + 16) (off + 24) := by
+  obtain ⟨h3, hy, hn⟩ := updateTfhd_ok g g' off len delta o (by omega) h
+  by_cases hb : tfhdHasBase g off len
+  · obtain ⟨h8, _, _, hg⟩ := hy hb
+    rw [hg]
+    simp only [tfhdData, List.length_take, List.length_drop, length_readAt'] at h8
+    exact (writeAt_agree g _ (off + 16) (by simp; omega)).mono (by omega) (by simp)
+  · rw [hn hb]; exact Agree.refl _ _ _
+
+/-! ### E. the whole save: no media byte is disturbed -/
+
+theorem runSteps_append (a b : List (Bytes → Except PyErr Bytes)) (g : Bytes) :
+    runSteps (a ++ b) g = match runSteps a g with
+      | (none, g') => runSteps b g'
+      | r => r := by
+  induction a generalizing g with
+  | nil => simp [runSteps]
+  | cons s r ih =>
+    simp only [List.cons_append, runSteps]
+    cases hs : s g with
+    | error e => simp
+    | ok g1 => simp [ih]
+
+/-- step `s` changes bytes only inside `[r.1, r.2)` -/
+def StepIn (s : Bytes → Except PyErr Bytes) (r : Nat × Nat) : Prop :=
+  ∀ g g', s g = .ok g' → Agree g g' r.1 r.2
+
+/-- the i-th step changes bytes only inside the i-th range -/
+inductive AllIn : List (Bytes → Except PyErr Bytes) → List (Nat × Nat) → Prop
+  | nil : AllIn [] []
+  | cons {s r ss rs} : StepIn s r → AllIn ss rs → AllIn (s :: ss) (r :: rs)
+
+theorem AllIn.append {a b : List (Bytes → Except PyErr Bytes)} {ra rb : List (Nat × Nat)}
+    (h1 : AllIn a ra) (h2 : AllIn b rb) : AllIn (a ++ b) (ra ++ rb) := by
+  induction h1 with
+  | nil => exact h2
+  | cons hs _ ih => exact .cons hs ih
+
+theorem runSteps_agree (steps : List (Bytes → Except PyErr Bytes)) (rs : List (Nat × Nat))
+    (h : AllIn steps rs) (g g' : Bytes) (hr : runSteps steps g = (none, g')) :
+    g'.length = g.length ∧
+      ∀ x n, (∀ r ∈ rs, x + n ≤ r.1 ∨ r.2 ≤ x) → readAt g' x n = readAt g x n := by
+  induction h generalizing g with
+  | nil => simp only [runSteps, Prod.mk.injEq, true_and] at hr; subst hr; exact ⟨rfl, fun _ _ _ => rfl⟩
+  | @cons s r steps rs hsr _ ih =>
+    simp only [runSteps] at hr
+    cases hs : s g with
+    | error e => rw [hs] at hr; cases hr
+    | ok g1 =>
+      rw [hs] at hr
+      obtain ⟨hl, hw⟩ := ih g1 hr
+      have ha := hsr g g1 hs
+      refine ⟨hl.trans ha.1, fun x n hd => ?_⟩
+      rw [hw x n (fun r' hr' => hd r' (List.mem_cons_of_mem _ hr'))]
+      exact ha.readAt x n (hd r List.mem_cons_self)
+
+def parentRange (p : PAtom) : Nat × Nat := (p.offset, p.offset + 16)
+
+/-- the extent of a visited table atom where it lies after the save, from the first byte that
+may be rewritten (`+ 16`) to its end -/
+def tableRange (delta : Int) (o : Nat) (t : Nat × PAtom) : Nat × Nat :=
+  (shifted t.2 delta o + 16, shifted t.2 delta o + t.2.length)
+
+/-- every byte range the bookkeeping of a save may write to -/
+def ranges (parents atoms : List PAtom) (delta : Int) (o : Nat) : List (Nat × Nat) :=
+  parents.map parentRange ++ (visited atoms).map (tableRange delta o)
+
+/-- the visited table atoms are long enough for the fixed offsets the code reads at
+(`stco`/`co64`: count at +12; `tfhd`: flags at +9, base offset at +16..+24) -/
+def TablesSized (atoms : List PAtom) : Prop :=
+  ∀ t ∈ visited atoms, if t.1 = 0 then 24 ≤ t.2.length else 12 ≤ t.2.length
+
+theorem parentSteps_in (parents : List PAtom) (delta : Int) (hd : delta ≠ 0) :
+    AllIn (parentSteps parents delta) (parents.map parentRange) := by
+  simp only [parentSteps, hd, ↓reduceIte]
+  induction parents with
+  | nil => exact .nil
+  | cons p r ih =>
+    refine .cons ?_ ih
+    intro g g' h
+    exact patchSize_agree g g' p.offset delta h
+
+theorem tableSteps_in (ts : List (Nat × PAtom)) (delta : Int) (o : Nat)
+    (hsz : ∀ t ∈ ts, if t.1 = 0 then 24 ≤ t.2.length else 12 ≤ t.2.length) :
+    AllIn (ts.map (tableStep delta o)) (ts.map (tableRange delta o)) := by
+  induction ts with
+  | nil => exact .nil
+  | cons t r ih =>
+    refine .cons ?_ (ih (fun t' ht' => hsz t' (List.mem_cons_of_mem _ ht')))
+    intro g g' h
+    have ht := hsz t List.mem_cons_self
+    simp only [tableStep] at h
+    simp only [tableRange]
+    by_cases h0 : t.1 = 0
+    · simp only [h0, ↓reduceIte] at h ht
+      exact (updateTfhd_agree g g' _ _ delta o ht h).mono (by omega) (by omega)
+    · simp only [h0, ↓reduceIte] at h ht
+      exact updateOffsetTable_agree g g' _ _ _ delta o ht h
+
+theorem allSteps_in (parents atoms : List PAtom) (delta : Int) (o : Nat) (hd : delta ≠ 0)
+    (hm : (child? atoms nMoov).isSome) (hsz : TablesSized atoms) :
+    AllIn (parentSteps parents delta ++ offsetSteps atoms delta o) (ranges parents atoms delta o) := by
+  unfold ranges
+  apply AllIn.append (parentSteps_in parents delta hd)
+  unfold offsetSteps
+  simp only [hd, ↓reduceIte]
+  cases hc : child? atoms nMoov with
+  | none => simp [hc] at hm
+  | some m => exact tableSteps_in _ delta o hsz
+
+theorem saveAt_none (f : Bytes) (atoms parents : List PAtom) (o old : Nat) (new g : Bytes)
+    (hs : saveAt f atoms parents o old new = (none, g)) :
+    o + old ≤ f.length ∧
+      runSteps (parentSteps parents ((new.length : Int) - old) ++ offsetSteps atoms ((new.length : Int) - old) o)
+        (splice f o old new) = (none, g) := by
+  unfold saveAt at hs
+  split at hs
+  · cases hs
+  · exact ⟨by omega, hs⟩
+
+/-- after a save that finished, the bytes differ from the spliced file only inside `ranges` -/
+theorem saveAt_agree (f : Bytes) (atoms parents : List PAtom) (o old : Nat) (new g : Bytes)
+    (hs : saveAt f atoms parents o old new = (none, g)) (hsz : TablesSized atoms) :
+    g.length = (splice f o old new).length ∧
+      ∀ x n, (∀ r ∈ ranges parents atoms ((new.length : Int) - old) o, x + n ≤ r.1 ∨ r.2 ≤ x) →
+        readAt g x n = readAt (splice f o old new) x n := by
+  obtain ⟨hb, hr⟩ := saveAt_none f atoms parents o old new g hs
+  by_cases hd : (new.length : Int) - old = 0
+  · simp only [hd, parentSteps, offsetSteps, ↓reduceIte, List.append_nil, runSteps, Prod.mk.injEq, true_and] at hr
+    subst hr
+    exact ⟨rfl, fun _ _ _ => rfl⟩
+  · cases hm : child? atoms nMoov with
+    | none =>
+      -- `atoms[b"moov"]` raises KeyError: the save does not finish
+      exfalso
+      rw [runSteps_append] at hr
+      simp only [offsetSteps, hd, ↓reduceIte, hm] at hr
+      cases hp : runSteps (parentSteps parents ((new.length : Int) - old)) (splice f o old new) with
+      | mk e g1 =>
+        rw [hp] at hr
+        cases e with
+        | none => simp [runSteps] at hr
+        | some e => simp at hr
+    | some m =>
+      exact runSteps_agree _ _ (allSteps_in parents atoms _ o hd (by simp [hm]) hsz) _ _ hr
+
+/-- C10, media side: after a save that finished, an offset patched by the code's rule addresses
+the same `n` bytes as before, provided these bytes avoid the replaced region (`Clear`) and, where
+they lie after the save, every field the bookkeeping may rewrite (`ranges`) -/
+theorem media_follow (f : Bytes) (atoms parents : List PAtom) (o old : Nat) (new g : Bytes)
+    (hs : saveAt f atoms parents o old new = (none, g)) (hsz : TablesSized atoms)
+    (e n : Nat) (hc : Clear o old e n)
+    (hd : ∀ r ∈ ranges parents atoms ((new.length : Int) - old) o,
+      (patchEntry o ((new.length : Int) - old) e).toNat + n ≤ r.1 ∨
+        r.2 ≤ (patchEntry o ((new.length : Int) - old) e).toNat) :
+    readAt g (patchEntry o ((new.length : Int) - old) e).toNat n = readAt f e n := by
+  obtain ⟨_, hw⟩ := saveAt_agree f atoms parents o old new g hs hsz
+  rw [hw _ n hd]
+  exact splice_patched_window f new o old e n (saveAt_none f atoms parents o old new g hs).1 hc
+
+/-! ### F. the whole save: every visited table holds the patched offsets -/
+
+theorem runSteps_split (a b : List (Bytes → Except PyErr Bytes)) (g g' : Bytes)
+    (h : runSteps (a ++ b) g = (none, g')) : ∃ gm, runSteps a g = (none, gm) ∧ runSteps b gm = (none, g') := by
+  rw [runSteps_append] at h
+  cases hp : runSteps a g with
+  | mk e gm =>
+    rw [hp] at h
+    cases e with
+    | none => exact ⟨gm, rfl, h⟩
+    | some e => simp at h
+
+/-- where a visited table atom lies after the save -/
+def extentOf (delta : Int) (o : Nat) (t : Nat × PAtom) : Nat × Nat :=
+  (shifted t.2 delta o, shifted t.2 delta o + t.2.length)
+
+def Disjoint (a b : Nat × Nat) : Prop := a.2 ≤ b.1 ∨ b.2 ≤ a.1
+
+instance (a b : Nat × Nat) : Decidable (Disjoint a b) := by unfold Disjoint; infer_instance
+
+/-- where they lie after the save, the visited table atoms are pairwise disjoint and none of them
+overlaps the 16 bytes at the start of a path atom (where `__update_parents` writes) -/
+def ExtentsDisjoint (parents atoms : List PAtom) (delta : Int) (o : Nat) : Prop :=
+  ((visited atoms).map (extentOf delta o)).Pairwise Disjoint ∧
+    ∀ p ∈ parents, ∀ t ∈ visited atoms, Disjoint (parentRange p) (extentOf delta o t)
+
+instance (parents atoms : List PAtom) (delta : Int) (o : Nat) : Decidable (ExtentsDisjoint parents atoms delta o) := by
+  unfold ExtentsDisjoint; infer_instance
+
+theorem readAt_writeAt_window (g buf : Bytes) (p x n : Nat) (hx : x ≤ p) (hn : p + buf.length ≤ x + n)
+    (hb : x + n ≤ g.length) :
+    readAt (writeAt g p buf) x n =
+      (readAt g x n).take (p - x) ++ buf ++ (readAt g x n).drop (p - x + buf.length) := by
+  apply List.ext_getElem?
+  intro i
+  have hw : p + buf.length ≤ g.length := by omega
+  simp only [getElem?_readAt, getElem?_writeAt g p buf _ hw, List.getElem?_append, List.length_take,
+    List.length_append, List.getElem?_take, List.getElem?_drop, length_readAt']
+  repeat' split
+  all_goals first | rfl | omega | (congr 1; omega) | skip
+  all_goals (first | (symm; apply List.getElem?_eq_none; omega) | (apply List.getElem?_eq_none; omega))
+
+theorem saveAt_moov (f : Bytes) (atoms parents : List PAtom) (o old : Nat) (new g : Bytes)
+    (hs : saveAt f atoms parents o old new = (none, g)) (hd : (new.length : Int) - old ≠ 0) :
+    ∃ m, child? atoms nMoov = some m := by
+  obtain ⟨_, hr⟩ := saveAt_none f atoms parents o old new g hs
+  cases hm : child? atoms nMoov with
+  | some m => exact ⟨m, rfl⟩
+  | none =>
+    exfalso
+    obtain ⟨gm, _, h2⟩ := runSteps_split _ _ _ _ hr
+    simp [offsetSteps, hd, hm, runSteps] at h2
+
+theorem tableRange_sub (delta : Int) (o : Nat) (t : Nat × PAtom) :
+    (extentOf delta o t).1 ≤ (tableRange delta o t).1 ∧ (tableRange delta o t).2 = (extentOf delta o t).2 := by
+  simp [extentOf, tableRange]
+
+/-- the step of one visited table atom `t` sees, inside the extent of `t`, the bytes of the spliced
+file, and what it leaves there is what the finished save leaves there — when the extents of the
+fields the save writes to are pairwise disjoint -/
+theorem table_isolated (f : Bytes) (atoms parents : List PAtom) (o old : Nat) (new g : Bytes)
+    (hs : saveAt f atoms parents o old new = (none, g)) (hsz : TablesSized atoms)
+    (hd : (new.length : Int) - old ≠ 0)
+    (hpw : ExtentsDisjoint parents atoms ((new.length : Int) - old) o)
+    (t : Nat × PAtom) (ht : t ∈ visited atoms) :
+    ∃ ga gb, tableStep ((new.length : Int) - old) o t ga = .ok gb ∧
+      ga.length = (splice f o old new).length ∧
+      (∀ x n, (extentOf ((new.length : Int) - old) o t).1 ≤ x → x + n ≤ (extentOf ((new.length : Int) - old) o t).2 →
+        readAt ga x n = readAt (splice f o old new) x n) ∧
+      (∀ x n, (extentOf ((new.length : Int) - old) o t).1 ≤ x → x + n ≤ (extentOf ((new.length : Int) - old) o t).2 →
+        readAt g x n = readAt gb x n) := by
+  generalize hdl : (new.length : Int) - old = delta at *
+  obtain ⟨A, B, hAB⟩ := List.append_of_mem ht
+  obtain ⟨_, hr⟩ := saveAt_none f atoms parents o old new g hs
+  obtain ⟨m, hm⟩ := saveAt_moov f atoms parents o old new g hs (by rw [hdl]; exact hd)
+  rw [hdl] at hr
+  have hsteps : parentSteps parents delta ++ offsetSteps atoms delta o =
+      (parentSteps parents delta ++ A.map (tableStep delta o)) ++ ([tableStep delta o t] ++ B.map (tableStep delta o)) := by
+    simp [offsetSteps, hd, hm, hAB]
+  rw [hsteps] at hr
+  obtain ⟨ga, h1, h2⟩ := runSteps_split _ _ _ _ hr
+  obtain ⟨gb, h3, h4⟩ := runSteps_split _ _ _ _ h2
+  have hstep : tableStep delta o t ga = .ok gb := by
+    simp only [runSteps] at h3
+    cases hq : tableStep delta o t ga with
+    | error e => rw [hq] at h3; cases h3
+    | ok g2 => rw [hq] at h3; cases h3; rfl
+  -- sizes of the tables before and after `t`
+  have hszA : ∀ a ∈ A, if a.1 = 0 then 24 ≤ a.2.length else 12 ≤ a.2.length :=
+    fun a ha => hsz a (by rw [hAB]; simp [ha])
+  have hszB : ∀ a ∈ B, if a.1 = 0 then 24 ≤ a.2.length else 12 ≤ a.2.length :=
+    fun a ha => hsz a (by rw [hAB]; simp [ha])
+  have in1 : AllIn (parentSteps parents delta ++ A.map (tableStep delta o))
+      (parents.map parentRange ++ A.map (tableRange delta o)) :=
+    (parentSteps_in parents delta hd).append (tableSteps_in A delta o hszA)
+  have in2 : AllIn (B.map (tableStep delta o)) (B.map (tableRange delta o)) := tableSteps_in B delta o hszB
+  obtain ⟨hl1, hw1⟩ := runSteps_agree _ _ in1 _ _ h1
+  obtain ⟨_, hw2⟩ := runSteps_agree _ _ in2 _ _ h4
+  -- disjointness
+  obtain ⟨hq, hPx⟩ := hpw
+  simp only [hAB, List.map_append, List.map_cons] at hq
+  rw [List.pairwise_append] at hq
+  obtain ⟨_, hq2, hAx⟩ := hq
+  rw [List.pairwise_cons] at hq2
+  obtain ⟨hxB, _⟩ := hq2
+  refine ⟨ga, gb, hstep, hl1, ?_, ?_⟩
+  · intro x n hx1 hx2
+    apply hw1
+    intro r hr
+    rcases List.mem_append.mp hr with hr | hr
+    · obtain ⟨p, hp, rfl⟩ := List.mem_map.mp hr
+      have := hPx p hp t ht
+      unfold Disjoint at this; omega
+    · obtain ⟨a, ha, rfl⟩ := List.mem_map.mp hr
+      have := hAx (extentOf delta o a) (List.mem_map.mpr ⟨a, ha, rfl⟩) (extentOf delta o t) (by simp)
+      have hsub := tableRange_sub delta o a
+      unfold Disjoint at this; omega
+  · intro x n hx1 hx2
+    apply hw2
+    intro r hr
+    obtain ⟨b, hb, rfl⟩ := List.mem_map.mp hr
+    have := hxB (extentOf delta o b) (List.mem_map.mpr ⟨b, hb, rfl⟩)
+    have hsub := tableRange_sub delta o b
+    unfold Disjoint at this; omega
+
+theorem entriesOf_encode (w : Nat) (es : List Nat) (h : ∀ e ∈ es, e < 256 ^ w) (rest : Bytes) :
+    entriesOf w es.length (encodeEntries w es ++ rest) = es := by
+  induction es with
+  | nil => rfl
+  | cons e r ih =>
+    have hl : (toBE w e).length = w := length_toBE _ _
+    simp only [encodeEntries, List.map_cons, List.flatten_cons, List.length_cons, entriesOf, List.append_assoc]
+    rw [List.take_left' hl, List.drop_left' hl, ofBE_toBE w e (h e (by simp))]
+    congr 1
+    exact ih (fun x hx => h x (by simp [hx]))
+
+theorem shifted_eq (a : PAtom) (delta : Int) (o : Nat) : shifted a delta o = (patchEntry o delta a.offset).toNat := by
+  unfold shifted patchEntry
+  by_cases h : a.offset > o
+  · simp [h]
+  · simp [h]
+
+/-- inside an atom that avoids the replaced region, the spliced file has the old bytes -/
+theorem splice_extent (f new : Bytes) (o old off len k m : Nat) (hb : o + old ≤ f.length)
+    (hc : Clear o old off len) (hk : k + m ≤ len) :
+    readAt (splice f o old new) ((patchEntry o ((new.length : Int) - old) off).toNat + k) m = readAt f (off + k) m := by
+  have hc' : Clear o old (off + k) m := by
+    rcases hc with h | ⟨h1, h2⟩
+    · left; omega
+    · right; omega
+  have he : (patchEntry o ((new.length : Int) - old) off).toNat + k =
+      (patchEntry o ((new.length : Int) - old) (off + k)).toNat := by
+    unfold patchEntry
+    rcases hc with h | ⟨h1, h2⟩
+    · have n1 : ¬ o < off := by omega
+      have n2 : ¬ o < off + k := by omega
+      simp only [n1, n2, ↓reduceIte]
+      omega
+    · have n2 : o < off + k := by omega
+      simp only [h1, n2, ↓reduceIte]
+      omega
+  rw [he]
+  exact splice_patched_window f new o old (off + k) m hb hc'
+
+theorem extent_in_bounds (f new : Bytes) (o old off len : Nat) (hb : o + old ≤ f.length)
+    (hc : Clear o old off len) (hin : off + len ≤ f.length) :
+    (patchEntry o ((new.length : Int) - old) off).toNat + len ≤ (splice f o old new).length := by
+  rw [length_splice f new o old hb]
+  unfold patchEntry
+  rcases hc with h | ⟨h1, h2⟩
+  · have n1 : ¬ o < off := by omega
+    simp [n1]; omega
+  · simp only [h1, ↓reduceIte]; omega
+
+/-- C10, table side (stco / co64): after a save that finished, a visited chunk offset table that
+avoids the replaced region has the same count as before and holds exactly the old entries patched
+by the rule `+ delta iff offset < entry` -/
+theorem table_patched (f : Bytes) (atoms parents : List PAtom) (o old : Nat) (new g : Bytes)
+    (hs : saveAt f atoms parents o old new = (none, g)) (hsz : TablesSized atoms)
+    (hpw : ExtentsDisjoint parents atoms ((new.length : Int) - old) o)
+    (t : Nat × PAtom) (ht : t ∈ visited atoms) (hw : t.1 ≠ 0)
+    (hc : Clear o old t.2.offset t.2.length) (hin : t.2.offset + t.2.length ≤ f.length) :
+    tblCnt g (shifted t.2 ((new.length : Int) - old) o) t.2.length = tblCnt f t.2.offset t.2.length ∧
+    tblEntries g t.1 (shifted t.2 ((new.length : Int) - old) o) t.2.length =
+      (tblEntries f t.1 t.2.offset t.2.length).map (fun e => (patchEntry o ((new.length : Int) - old) e).toNat) := by
+  obtain ⟨hb, hr⟩ := saveAt_none f atoms parents o old new g hs
+  have hlen : 12 ≤ t.2.length := by have := hsz t ht; simpa [hw] using this
+  have hst := shifted_eq t.2 ((new.length : Int) - old) o
+  -- the table bytes in the spliced file are the old ones
+  have hD1 : tblData (splice f o old new) (shifted t.2 ((new.length : Int) - old) o) t.2.length =
+      tblData f t.2.offset t.2.length := by
+    unfold tblData
+    rw [hst]
+    exact splice_extent f new o old t.2.offset t.2.length 12 (t.2.length - 12) hb hc (by omega)
+  have hbound := extent_in_bounds f new o old t.2.offset t.2.length hb hc hin
+  rw [← hst] at hbound
+  by_cases hd : (new.length : Int) - old = 0
+  · -- nothing to do: the file is the spliced file, the rule adds 0
+    simp only [hd, parentSteps, offsetSteps, ↓reduceIte, List.append_nil, runSteps, Prod.mk.injEq, true_and] at hr
+    subst hr
+    rw [hd] at hD1 ⊢
+    unfold tblEntries tblCnt
+    rw [hD1]
+    refine ⟨rfl, ?_⟩
+    have : (fun e : Nat => (patchEntry o 0 e).toNat) = id := by
+      funext e; unfold patchEntry; simp
+    rw [this, List.map_id]
+  · obtain ⟨ga, gb, hstep, hl, hwa, hwb⟩ := table_isolated f atoms parents o old new g hs hsz hd hpw t ht
+    generalize hdl : (new.length : Int) - old = delta at *
+    generalize hsl : shifted t.2 delta o = st at *
+    simp only [extentOf, hsl] at hwa hwb
+    simp only [tableStep, hw, ↓reduceIte, hsl] at hstep
+    obtain ⟨h4, hbl, hfit, hgb⟩ := updateOffsetTable_ok ga gb t.1 st t.2.length delta o hlen hstep
+    have hDa : tblData ga st t.2.length = tblData f t.2.offset t.2.length := by
+      rw [← hD1]; unfold tblData; exact hwa _ _ (by omega) (by omega)
+    have hDlen : (tblData f t.2.offset t.2.length).length = t.2.length - 12 := by
+      unfold tblData; rw [length_readAt']; omega
+    have hcnt : tblCnt ga st t.2.length = tblCnt f t.2.offset t.2.length := by unfold tblCnt; rw [hDa]
+    have hent : tblEntries ga t.1 st t.2.length = tblEntries f t.1 t.2.offset t.2.length := by
+      unfold tblEntries; rw [hcnt, hDa]
+    rw [hent] at hfit hgb
+    rw [hDa, hcnt] at hbl
+    rw [hDa] at h4
+    generalize hD : tblData f t.2.offset t.2.length = D at *
+    generalize hes : tblEntries f t.1 t.2.offset t.2.length = es at *
+    have heslen : es.length = tblCnt f t.2.offset t.2.length := by
+      rw [← hes]; unfold tblEntries; exact length_entriesOf _ _ _
+    -- the table bytes after the save
+    have henc : (encodeEntries t.1 ((es.map (patchEntry o delta)).map Int.toNat)).length = D.length - 4 := by
+      rw [length_encodeEntries, List.length_map, List.length_map, heslen]
+      simp only [List.length_drop] at hbl
+      rw [hbl, Nat.mul_comm]
+    have hDg : tblData g st t.2.length =
+        D.take 4 ++ encodeEntries t.1 ((es.map (patchEntry o delta)).map Int.toNat) := by
+      unfold tblData
+      rw [hwb _ _ (by omega) (by omega), hgb,
+        readAt_writeAt_window ga _ (st + 16) (st + 12) (t.2.length - 12) (by omega) (by rw [henc]; omega) (by omega)]
+      have e1 : readAt ga (st + 12) (t.2.length - 12) = D := hDa
+      rw [e1, henc, show st + 16 - (st + 12) = 4 by omega,
+        List.drop_eq_nil_of_le (by omega), List.append_nil]
+    have ht4 : (D.take 4).length = 4 := by simp; omega
+    have hcg : tblCnt g st t.2.length = tblCnt f t.2.offset t.2.length := by
+      unfold tblCnt; rw [hDg, hD, List.take_left' ht4]
+    refine ⟨hcg, ?_⟩
+    unfold tblEntries
+    rw [hcg, hDg, List.drop_left' ht4]
+    have hfit' : ∀ e ∈ (es.map (patchEntry o delta)).map Int.toNat, e < 256 ^ t.1 := by
+      intro e he
+      obtain ⟨v, hv, rfl⟩ := List.mem_map.mp he
+      have := hfit v hv
+      omega
+    have hl2 : ((es.map (patchEntry o delta)).map Int.toNat).length = tblCnt f t.2.offset t.2.length := by
+      simp [heslen]
+    have := entriesOf_encode t.1 _ hfit' []
+    rw [hl2, List.append_nil] at this
+    rw [this, List.map_map]
+    rfl
+
+/-- C10, table side (tfhd): after a save that finished, a visited `tfhd` that avoids the replaced
+region has the same flags as before, and if it records a base data offset, that offset is the old
+one patched by the rule `+ delta iff offset < base` -/
+theorem tfhd_patched (f : Bytes) (atoms parents : List PAtom) (o old : Nat) (new g : Bytes)
+    (hs : saveAt f atoms parents o old new = (none, g)) (hsz : TablesSized atoms)
+    (hpw : ExtentsDisjoint parents atoms ((new.length : Int) - old) o)
+    (t : Nat × PAtom) (ht : t ∈ visited atoms) (hw : t.1 = 0)
+    (hc : Clear o old t.2.offset t.2.length) (hin : t.2.offset + t.2.length ≤ f.length) :
+    (tfhdHasBase g (shifted t.2 ((new.length : Int) - old) o) t.2.length ↔ tfhdHasBase f t.2.offset t.2.length) ∧
+    (tfhdHasBase f t.2.offset t.2.length →
+      tfhdBaseAt g (shifted t.2 ((new.length : Int) - old) o) t.2.length =
+        (patchEntry o ((new.length : Int) - old) (tfhdBaseAt f t.2.offset t.2.length)).toNat) := by
+  obtain ⟨hb, hr⟩ := saveAt_none f atoms parents o old new g hs
+  have hlen : 24 ≤ t.2.length := by have := hsz t ht; simpa [hw] using this
+  have hst := shifted_eq t.2 ((new.length : Int) - old) o
+  have hD1 : tfhdData (splice f o old new) (shifted t.2 ((new.length : Int) - old) o) t.2.length =
+      tfhdData f t.2.offset t.2.length := by
+    unfold tfhdData
+    rw [hst]
+    exact splice_extent f new o old t.2.offset t.2.length 9 (t.2.length - 9) hb hc (by omega)
+  have hbound := extent_in_bounds f new o old t.2.offset t.2.length hb hc hin
+  rw [← hst] at hbound
+  by_cases hd : (new.length : Int) - old = 0
+  · simp only [hd, parentSteps, offsetSteps, ↓reduceIte, List.append_nil, runSteps, Prod.mk.injEq, true_and] at hr
+    subst hr
+    rw [hd] at hD1 ⊢
+    unfold tfhdHasBase tfhdBaseAt
+    rw [hD1]
+    refine ⟨Iff.rfl, fun _ => ?_⟩
+    unfold patchEntry; simp
+  · obtain ⟨ga, gb, hstep, hl, hwa, hwb⟩ := table_isolated f atoms parents o old new g hs hsz hd hpw t ht
+    generalize hdl : (new.length : Int) - old = delta at *
+    generalize hsl : shifted t.2 delta o = st at *
+    simp only [extentOf, hsl] at hwa hwb
+    simp only [tableStep, hw, ↓reduceIte, hsl] at hstep
+    obtain ⟨h3, hyes, hno⟩ := updateTfhd_ok ga gb st t.2.length delta o (by omega) hstep
+    have hDa : tfhdData ga st t.2.length = tfhdData f t.2.offset t.2.length := by
+      rw [← hD1]; unfold tfhdData; exact hwa _ _ (by omega) (by omega)
+    have hDlen : (tfhdData f t.2.offset t.2.length).length = t.2.length - 9 := by
+      unfold tfhdData; rw [length_readAt']; omega
+    have hba : tfhdHasBase ga st t.2.length ↔ tfhdHasBase f t.2.offset t.2.length := by
+      unfold tfhdHasBase; rw [hDa]
+    have hva : tfhdBaseAt ga st t.2.length = tfhdBaseAt f t.2.offset t.2.length := by
+      unfold tfhdBaseAt; rw [hDa]
+    have hDg0 : tfhdData g st t.2.length = readAt gb (st + 9) (t.2.length - 9) := by
+      unfold tfhdData; exact hwb _ _ (by omega) (by omega)
+    by_cases hbase : tfhdHasBase f t.2.offset t.2.length
+    · obtain ⟨_, p1, p2, hgb⟩ := hyes (hba.mpr hbase)
+      rw [hva] at p1 p2 hgb
+      generalize hD : tfhdData f t.2.offset t.2.length = D at *
+      generalize hv : patchEntry o delta (tfhdBaseAt f t.2.offset t.2.length) = v at *
+      have hDg : tfhdData g st t.2.length = D.take 7 ++ toBE 8 v.toNat ++ D.drop 15 := by
+        rw [hDg0, hgb,
+          readAt_writeAt_window ga _ (st + 16) (st + 9) (t.2.length - 9) (by omega) (by simp; omega) (by omega)]
+        have e1 : readAt ga (st + 9) (t.2.length - 9) = D := hDa
+        rw [e1, show st + 16 - (st + 9) = 7 by omega]
+        simp
+      have h7 : (D.take 7).length = 7 := by simp; omega
+      have hflags : (tfhdData g st t.2.length).take 3 = D.take 3 := by
+        rw [hDg, List.append_assoc, List.take_append_of_le_length (by omega), List.take_take]
+        simp
+      have hb8 : ((tfhdData g st t.2.length).drop 7).take 8 = toBE 8 v.toNat := by
+        rw [hDg, List.append_assoc, List.drop_left' h7, List.take_left' (by simp)]
+      refine ⟨?_, fun _ => ?_⟩
+      · unfold tfhdHasBase at hbase ⊢
+        rw [hflags, hD]
+      · unfold tfhdBaseAt
+        rw [hb8]
+        exact ofBE_toBE 8 v.toNat (by omega)
+    · have hgb := hno (fun h => hbase (hba.mp h))
+      rw [hgb] at hDg0
+      have e1 : readAt ga (st + 9) (t.2.length - 9) = tfhdData f t.2.offset t.2.length := hDa
+      rw [e1] at hDg0
+      refine ⟨?_, fun h => absurd h hbase⟩
+      unfold tfhdHasBase
+      rw [hDg0]
+
+/-! ### G. which tables are visited -/
+
+theorem filter_eq_find (l : List PAtom) (p : PAtom → Bool) (h : (l.filter p).length ≤ 1) :
+    l.filter p = (l.find? p).toList := by
+  induction l with
+  | nil => rfl
+  | cons a r ih =>
+    by_cases hp : p a
+    · simp only [List.filter_cons, hp, ↓reduceIte, List.length_cons, List.find?_cons] at h ⊢
+      have : (r.filter p) = [] := List.eq_nil_of_length_eq_zero (by omega)
+      simp [this]
+    · simp only [List.filter_cons, hp, List.find?_cons] at h ⊢
+      exact ih h
+
+/-- with one top-level `moov` and at most one top-level `moof`, `__update_offsets` visits every
+table atom of the file -/
+theorem visited_eq_allTables (atoms : List PAtom)
+    (hmoov : (atoms.filter (·.name = nMoov)).length = 1) (hmoof : (atoms.filter (·.name = nMoof)).length ≤ 1) :
+    visited atoms = allTables atoms := by
+  unfold visited allTables child?
+  rw [filter_eq_find atoms _ (by omega), filter_eq_find atoms _ hmoof]
+  have h1 := filter_eq_find atoms (·.name = nMoov) (by omega)
+  cases hm : atoms.find? (·.name = nMoov) with
+  | none => rw [hm] at h1; rw [h1] at hmoov; simp at hmoov
+  | some m =>
+    cases hf : atoms.find? (·.name = nMoof) with
+    | none => simp
+    | some mf => simp
+
+/-- the side conditions under which the bookkeeping of a save is analysed: the visited table
+atoms are long enough for the fixed positions the code reads, lie inside the file and avoid the
+replaced region, and (where they lie after the save) they and the size fields of the path atoms
+are pairwise disjoint.  All four hold for a file whose atoms tile it (strict walker) when the
+region is the `ilst`/`free` pair or the insertion point; all four are decidable. -/
+def SaveSafe (f : Bytes) (atoms parents : List PAtom) (o old : Nat) (delta : Int) : Prop :=
+  TablesSized atoms ∧ ExtentsDisjoint parents atoms delta o ∧
+    (∀ t ∈ visited atoms, Clear o old t.2.offset t.2.length) ∧
+    (∀ t ∈ visited atoms, t.2.offset + t.2.length ≤ f.length)
+
+instance (atoms : List PAtom) : Decidable (TablesSized atoms) := by unfold TablesSized; infer_instance
+
+instance (f : Bytes) (atoms parents : List PAtom) (o old : Nat) (delta : Int) :
+    Decidable (SaveSafe f atoms parents o old delta) := by unfold SaveSafe; infer_instance
+
+/-- the `n` bytes at `e` are media in the sense needed: they avoid the replaced region and, where
+they lie after the save, every field the bookkeeping may rewrite -/
+def MediaClear (parents atoms : List PAtom) (o old : Nat) (delta : Int) (e n : Nat) : Prop :=
+  Clear o old e n ∧ ∀ r ∈ ranges parents atoms delta o,
+    (patchEntry o delta e).toNat + n ≤ r.1 ∨ r.2 ≤ (patchEntry o delta e).toNat
+
+instance (parents atoms : List PAtom) (o old : Nat) (delta : Int) (e n : Nat) :
+    Decidable (MediaClear parents atoms o old delta e n) := by unfold MediaClear; infer_instance
+
 end Mutagen.Mp4C
